@@ -12,8 +12,10 @@ ASSUMPTIONS = [
     'the oracle recomputes every release instant and colour by the property\'s own recurrence in Python floats with the same expression order and demands equality; '
     'the envelope, level-bound and peak-spacing inequalities are evaluated on the observed debit instants (`update_time` at the moment of `out.put`) with a tolerance of '
     '4 ulp per summand (of the byte figures, and of the instants scaled by rate/8), because token levels and instants are rounded sums',
-    'the shaper process on the real kernel refines the FifoServer LTS: checked by replay (labels from Process.target), not proved',
+    'the shaper process on the real kernel refines the FifoServer LTS: checked by replay (labels from Process.target); for the TokenBucket '
+    'written as a process on the kernel MODEL it is a theorem (Props/C11K.lean), and that program is compared bit for bit with the real TokenBucket (tbk leg)',
 ]
+EXTRA_MODULES = ('OnlVerif.Props.C11K',)
 TRUSTED_EXTRA = ['the kernel guarantees (G1-G3) that make `tick` admissible only at quiescence are theorems of model K (C01), assumed for the device LTS',
                  'py2lean/elem.py + elements.py (typed AST-subset translator that splits a server generator at its `yield env.timeout` statements; '
                  'hand-written field schema of TokenBucket / TwoRateTokenBucket objects, declared effects `self.store.put(packet)`, `self.out.put(packet)`, `packet.color = …`); '
@@ -279,7 +281,143 @@ def oracle(c, run):
     return fails
 
 
+# ---- BEGIN tbk leg: the TokenBucket as a process on the kernel MODEL (lean/OnlVerif/Net/TBOnK.lean, driver mode `tbk`) ----
+def run_tbk(ctx, res=None):
+    """Extra leg for Props/C11K.lean: the K program of the TokenBucket (run / put + a source process), run at Float by the
+    compiled driver, against the real TokenBucket with a real source process on the real kernel under env.run() (public API only),
+    compared line for line; plus the token-bucket recurrence restated over the implementation's own put / out observations.
+    Called twice from run(): without `res` it answers whether ctx.replay is a replay of this leg (then only this leg runs); with
+    the result dict of the main leg it appends its coverage / disagreements / failures in place."""
+    from vlib.util import unbits
+
+    def replay_cases():
+        j = json.load(open(ctx.replay))
+        cs = ([j['case']] if j.get('case') else []) + [d['case'] for d in (j.get('broken_correspondence') or []) if d.get('case')]
+        return [c for c in cs if isinstance(c, dict) and c.get('kind') == 'tbk']
+
+    if res is None:
+        if not (ctx.replay and replay_cases()):
+            return None
+        res = {'coverage': {'evaluations': 0, 'distinct_nontrivial': 0, 'rule': 'replay of a tbk case', 'samples': []},
+               'disagreements': [], 'oracle_failures': []}
+        run_tbk(ctx, res)
+        k = res['coverage']['tb_on_kernel_model']
+        res['coverage'].update(evaluations=k['evaluations'], distinct_nontrivial=k['distinct_nontrivial'], samples=[k['sample']])
+        return res
+
+    def gen(rng, cid):
+        dyadic = rng.random() < 0.6
+        sizes = DY_SIZE if dyadic else [rng.randint(1, 3000) for _ in range(4)] + [40, 1500]
+        rate = float(rng.choice(DY_RATE)) if dyadic else rng.choice([rng.uniform(1, 1e4), rng.uniform(1e3, 1e7), float(rng.randint(1, 10 ** 6))])
+        bucket = rng.choice(DY_BUCKET) if dyadic else rng.choice([rng.randint(0, 5000), rng.randint(1, 200), round(rng.uniform(0, 4000), 2)])
+        peak = None if rng.random() < 0.45 else (rng.choice([0, 0.0]) if rng.random() < 0.08 else rate * rng.choice([1, 2, 4, 16]))
+        n = rng.randint(0, 12)
+        arr = [[float(rng.choice(GAPS[:9] + [round(rng.random() * 4, 3)])), rng.choice(sizes)] for _ in range(n)]
+        return {'cid': f't{cid}', 'kind': 'tbk', 'rate': rate, 'bucket': bucket, 'peak': peak, 'arrivals': arr}
+
+    def text(c):
+        return ([f"CASE {c['cid']} {bits(float(c['rate']))} {bits(float(c['bucket']))} {'None' if c['peak'] is None else bits(float(c['peak']))}"]
+                + [f'arr {bits(g)} {sz}' for g, sz in c['arrivals']] + ['END'])
+
+    def impl(c):
+        env = Environment()
+        hist = []
+        tb = TokenBucket(env, c['rate'], c['bucket'], c['peak'])
+
+        class Rec:
+            def put(self, packet):
+                hist.append(f'out {packet.packet_id} {bits(env.now)}')
+        tb.out = Rec()
+
+        def src():
+            for i, (gap, sz) in enumerate(c['arrivals']):
+                yield env.timeout(gap)
+                hist.append(f'put {i} {bits(env.now)}')
+                tb.put(make_packet(env, i, 0, sz))
+        env.process(src())
+        try:
+            with quiet():
+                env.run()
+            tag = 'RET'
+        except BaseException as x:        # noqa - the property says the run never raises
+            tag = f'RAISED {type(x).__name__}'
+        lines = [tag] + hist + [f'cells rc={tb.packets_received} sn={tb.packets_sent} cb={bits(float(tb.current_bucket))} '
+                                f'ut={bits(float(tb.update_time))}', f'now {bits(env.now)}']
+        return lines + ['oracle -' if tag != 'RET' else 'oracle ok' if not oracle_k(c, lines) else 'oracle REJECT']
+
+    def oracle_k(c, lines):
+        """the token-bucket recurrence of C11 restated over the implementation's own put / out observations, in Python floats with the
+        code's expression order, exact equality: the packet reaches the head at g = max(put instant, previous departure); the level is
+        refilled to min(bucket, level + rate*(g - updated)/8); if smaller than the size the packet waits (size - level)*8/rate and the
+        level becomes 0, else the level is debited; with a truthy peak it waits size*8/peak more; it leaves exactly then; FIFO; all leave"""
+        if lines[0] != 'RET':
+            return [{'what': f'the run ended with {lines[0]}', 'signature': 'tbk-raised'}]
+        waiting, level, upd, free = [], c['bucket'], 0.0, 0.0
+        sizes = [sz for _, sz in c['arrivals']]
+        for l in lines[1:]:
+            w = l.split()
+            if w[0] == 'put':
+                waiting.append((int(w[1]), unbits(int(w[2]))))
+            elif w[0] == 'out':
+                i, t = int(w[1]), unbits(int(w[2]))
+                if not waiting or waiting[0][0] != i:
+                    return [{'what': f'packet {i} leaves out of order', 'signature': 'tbk-order'}]
+                tp = waiting.pop(0)[1]
+                g = max(free, tp)
+                lv = min(c['bucket'], level + c['rate'] * (g - upd) / 8.0)
+                if sizes[i] > lv:
+                    d = g + (sizes[i] - lv) * 8.0 / c['rate']; level = 0.0; upd = d
+                else:
+                    d = g; level = lv - sizes[i]; upd = g
+                if c['peak']:
+                    d = d + sizes[i] * 8.0 / c['peak']
+                if t != d:
+                    return [{'what': f'packet {i} leaves at {t!r}, the recurrence prescribes {d!r}', 'signature': 'tbk-release-time'}]
+                free = t
+        if waiting:
+            return [{'what': f'packets {[i for i, _ in waiting][:6]} never left', 'signature': 'tbk-drain'}]
+        return []
+
+    rng = random.Random(f'C11-tbk-{ctx.seed}')
+    cases = replay_cases() if ctx.replay else [gen(rng, i) for i in range(300 if ctx.quick else 5000)]
+    txt, got = [], {}
+    for c in cases:
+        got[c['cid']] = impl(c)
+        txt += text(c)
+    model = split_cases(run_driver('tbk', '\n'.join(txt) + '\n')) if cases else {}
+    hist, nontriv = collections.Counter(), 0
+    dis, orc = res['disagreements'], res['oracle_failures']
+    for c in cases:
+        a, b = got[c['cid']], model.get(c['cid'])
+        if a != b:
+            i = next((i for i in range(max(len(a), len(b or []))) if i >= len(a) or not b or i >= len(b) or a[i] != b[i]), 0)
+            dis.append({'case': c, 'detail': f'tbk line {i}: impl `{a[i] if i < len(a) else None}` model `{b[i] if b and i < len(b) else None}`',
+                        'impl': a[:300], 'model': (b or [])[:300]})
+        for f in oracle_k(c, a):
+            f['case'] = c; f['trace'] = a[:300]
+            orc.append(f)
+        puts = {l.split()[1]: l.split()[2] for l in a if l.startswith('put ')}
+        outs = {l.split()[1]: l.split()[2] for l in a if l.startswith('out ')}
+        waited = sum(1 for i in outs if outs[i] != puts.get(i))
+        hist['packets'] += len(puts); hist['released later than they arrived'] += waited
+        hist['released at their arrival instant'] += len(outs) - waited
+        hist['peak:' + ('None' if c['peak'] is None else 'zero' if not c['peak'] else 'set')] += 1
+        if waited and len(outs) - waited:
+            nontriv += 1
+    res['coverage']['tb_on_kernel_model'] = {
+        'evaluations': len(cases), 'distinct_nontrivial': nontriv, 'lines_compared': sum(len(v) for v in got.values()),
+        'rule': 'random TokenBucket configurations (dyadic and arbitrary-float rates, bucket sizes incl. 0 and smaller than the packets, peak None / 0 / set) '
+                'x one source (bursts, idle gaps) run by the K program at Float (driver mode tbk) and by the real TokenBucket with a real source '
+                'process under env.run(); non-trivial = at least one packet waited and at least one was released at its arrival instant',
+        'histogram': dict(sorted(hist.items())), 'sample': cases[0] if cases else None}
+    return None
+# ---- END tbk leg ----
+
+
 def run(ctx):
+    tk = run_tbk(ctx)                        # tbk leg: a replay of one of its cases runs only that leg
+    if tk is not None:
+        return tk
     rng = random.Random(f'C11-{ctx.seed}')
     if ctx.replay:
         j = json.load(open(ctx.replay))
@@ -350,4 +488,6 @@ def run(ctx):
            'action_lines_replayed': sum(len(r.acts) for r in runs.values()), 'operation_histogram': dict(sorted(hist.items()))}
     cov.update({'translated': _PREP.get('translated', []), 'generated_files_rewritten': _PREP.get('rewritten', []),
                 'generated_diff_vs_pinned': _PREP.get('diff_vs_pinned', []), 'bridge_theorems': BRIDGES, 'hand_modelled': HAND_MODELLED})
-    return {'coverage': cov, 'disagreements': dis, 'oracle_failures': orc}
+    res = {'coverage': cov, 'disagreements': dis, 'oracle_failures': orc}
+    run_tbk(ctx, res)                        # tbk leg: appends its coverage, disagreements and oracle failures in place
+    return res
